@@ -129,6 +129,86 @@ theorem C13_rejects_foreign_anywhere (cc : CharClass) (hcc : cc.Sane2) (s : List
       · exact Or.inr (Or.inr h3)
       · exact absurd (C13_no_foreign_outside_literals cc hcc s toks h t ht ⟨h1, h2, h3⟩ c hcl) hforeign
 
+/-! ### 4e. whitespace that is not ASCII whitespace -/
+
+/-- the characters for which Rust's `char::is_whitespace` holds but `char::is_ascii_whitespace` does not
+(VT, NEL, NBSP, OGHAM SPACE MARK, U+2000–U+200A, LS, PS, NNBSP, MMSP, IDEOGRAPHIC SPACE) -/
+def nonAsciiWhitespace : List Char :=
+  [0x0b, 0x85, 0xa0, 0x1680, 0x2000, 0x2001, 0x2002, 0x2003, 0x2004, 0x2005, 0x2006, 0x2007, 0x2008, 0x2009, 0x200a,
+   0x2028, 0x2029, 0x202f, 0x205f, 0x3000].map Char.ofNat
+
+/-- the list is exactly the difference of the two generated range tables (`whitespaceRanges` minus
+`asciiWhitespaceRanges`, Garnish/Gen/CharRanges.lean, dumped from the Rust std by the harness suite CHARCLASS) -/
+theorem nonAsciiWhitespace_complete :
+    ((Gen.CharRanges.whitespaceRanges.toList.flatMap fun ab => List.range' ab.1 (ab.2 - ab.1 + 1)).filter
+      fun n => !Gen.CharRanges.inRanges Gen.CharRanges.asciiWhitespaceRanges n) =
+    nonAsciiWhitespace.map Char.toNat := by decide +kernel
+
+/-- each of them is whitespace for `char::is_whitespace`, is not ASCII whitespace for the model, and cannot start a
+token (`start_token` tests `is_ascii_whitespace`, not `is_whitespace`) -/
+theorem nonAsciiWhitespace_cannot_start :
+    ∀ c ∈ nonAsciiWhitespace, Gen.CharRanges.isWhitespace c = true ∧ isAsciiWhitespace c = false ∧
+      ¬CanStart rustTables theTree c := by
+  unfold CanStart isIdentifierChar rustTables nonAsciiWhitespace
+  decide +kernel
+
+/-- 4e. a whitespace character that is not ASCII whitespace (e.g. U+00A0, U+2003, U+3000, U+0085), reached between
+tokens (the lexer is in `NoToken` after `pre`), is a lex error — it neither starts a Whitespace token nor is skipped -/
+theorem C13_rejects_non_ascii_whitespace (pre post : List Char) (c : Char) (hc : c ∈ nonAsciiWhitespace)
+    (σ : Lexer) (toks : List LexerToken)
+    (hrun : runChars rustTables pre (Lexer.init theTree) [] = .ok (σ, toks)) (hs : σ.state = .noToken) :
+    lex rustTables (pre ++ c :: post) = .err .syntax :=
+  lex_rejects rustTables pre post c σ toks hrun hs (nonAsciiWhitespace_cannot_start c hc).2.2
+
+/-- `a` NBSP `b`, `1 + ` IDEOGRAPHIC SPACE and a leading EM SPACE are rejected; inside a char list NBSP is content -/
+example : summary (lex rustTables ['a', Char.ofNat 0xa0, 'b']) = none ∧
+    summary (lex rustTables ['1', ' ', '+', ' ', Char.ofNat 0x3000]) = none ∧
+    summary (lex rustTables [Char.ofNat 0x2003, 'a']) = none ∧
+    summary (lex rustTables ['"', Char.ofNat 0xa0, '"']) =
+      some [(.charList, 0, 0, ['"', Char.ofNat 0xa0, '"'])] := by decide +kernel
+
+/-! ### 3'. columns count characters, not bytes -/
+
+/-- `C13_positions_all` is about `List Char`: `posOf` counts characters. Example with multi-byte characters
+(é is 2 bytes, 中 3 bytes, 😀 4 bytes in UTF-8): in `é中 "😀" x` the char list starts at column 3 and `x` at column 7,
+i.e. character counts (byte offsets would be 6 and 13) -/
+example : summary (lex rustTables [Char.ofNat 0xe9, Char.ofNat 0x4e2d, ' ', '"', Char.ofNat 0x1f600, '"', ' ', 'x']) =
+    some [(.identifier, 0, 0, [Char.ofNat 0xe9, Char.ofNat 0x4e2d]), (.whitespace, 0, 2, [' ']),
+          (.charList, 0, 3, ['"', Char.ofNat 0x1f600, '"']), (.whitespace, 0, 6, [' ']), (.identifier, 0, 7, ['x'])] := by
+  decide +kernel
+
+/-- 3'. the column of a token on the first line is the NUMBER OF CHARACTERS before it (not their UTF-8 length) -/
+theorem C13_columns_count_characters (cc : CharClass) (hcc : cc.Sane2) (s : List Char) (toks : List LexerToken)
+    (h : lex cc s = .ok toks) (i : Nat) (hi : i < toks.length) (hnl : '\n' ∉ s.take (tokenOffset toks i)) :
+    toks[i].row = 0 ∧ toks[i].column = tokenOffset toks i := by
+  have hp := C13_positions_all cc hcc s toks h i hi
+  have hoff : (s.take (tokenOffset toks i)).length = tokenOffset toks i := by
+    have hl := C13_lossless cc hcc s toks h
+    have hpre := textsOf_take_prefix toks s hl i
+    have e : tokenOffset toks i = (textsOf (toks.take i)).length := rfl
+    rw [e, ← hpre]
+  generalize s.take (tokenOffset toks i) = pfx at hp hnl hoff
+  have hpos : posOf pfx = (0, pfx.length) := by
+    unfold posOf
+    have h1 : pfx.count '\n' = 0 := List.count_eq_zero.mpr hnl
+    have tw : ∀ l : List Char, (∀ x ∈ l, x ≠ '\n') → l.takeWhile (· != '\n') = l := by
+      intro l
+      induction l with
+      | nil => intro _; rfl
+      | cons x r ih =>
+        intro hx
+        have hx1 : (x != '\n') = true := by simpa using hx x (by simp)
+        simp only [List.takeWhile, hx1]
+        rw [ih (fun y hy => hx y (by simp [hy]))]
+    have h2 : pfx.reverse.takeWhile (· != '\n') = pfx.reverse := by
+      apply tw
+      intro x hx hxe
+      subst hxe
+      exact hnl (by simpa using hx)
+    rw [h1, h2]; simp
+  rw [hpos, hoff] at hp
+  exact ⟨congrArg Prod.fst hp, congrArg Prod.snd hp⟩
+
 /-! ### 5. a blank line separates sub-expressions, with or without trailing spaces/tabs -/
 
 /-- 5 (general form). `a` is any string after which whitespace starts a fresh whitespace token (`Boundary`: the
